@@ -155,17 +155,19 @@ Proof.
 Qed.
 
 Lemma run_exts_replay c p size ff : no_xpanic c ->
-  ((0 <? c_max_size c)%Z && ff_stat ff = false) -> forall es checked st,
+  (c_fatal c && (0 <? c_max_size c)%Z && ff_stat ff = false) -> forall es checked st,
   run_exts c p size ff es checked st = WOk (apply_events c (ext_events c p size ff es checked) st) Continue.
 Proof.
   intros NP Q. induction es as [|e es IH]; intros checked st; cbn [run_exts ext_events]; [reflexivity|].
   change (apply_events c (EReq e p :: ?l) st) with (apply_events c l (add_event st (EReq e p))).
-  destruct (c_required c e p); [|apply IH].
+  destruct (req c e p size ff); [|apply IH].
   destruct (0 <? c_max_size c)%Z eqn:M; cbn [andb orb] in *.
-  - rewrite Q. destruct checked; cbn [negb andb].
+  - destruct checked; cbn [negb andb].
     + rewrite run_extractor_replay by apply NP. rewrite IH, apply_events_app. reflexivity.
-    + destruct (c_max_size c <? size)%Z; [reflexivity|].
-      rewrite run_extractor_replay by apply NP. rewrite IH, apply_events_app. reflexivity.
+    + destruct (ff_stat ff); cbn [orb].
+      * rewrite !andb_true_r in Q. rewrite Q. reflexivity.
+      * destruct (c_max_size c <? size)%Z; [reflexivity|].
+        rewrite run_extractor_replay by apply NP. rewrite IH, apply_events_app. reflexivity.
   - rewrite run_extractor_replay by apply NP. rewrite IH, apply_events_app. reflexivity.
 Qed.
 
